@@ -47,6 +47,14 @@ def extra_catalog():
                                                                                                                   ("Trapezoid", "c", -inf, sym("t1", "p"), sym("t2", "p"), inf)]}],
                                                            outputs=[{"name": "O", "terms": [O_A, O_B], "aggregation": "Maximum", "defuzzifier": ("Centroid", 2), "default": float("nan"),
                                                                      "range": (sym("olo", "p"), sym("ohi", "p"))}], valid_range=[("olo", "ohi")], compare_outputs=False)))
+    # constructor shortcuts (Triangle / Trapezoid built from their two outer vertices) with infinite outer vertices: the inner vertices
+    # come out as NaN, and the representation (which spells out all vertices) must rebuild exactly that term
+    out.append(("special/shortcut-constructors", lambda sym: base(
+        inputs=[{"name": "X", "range": (-inf, inf), "terms": [("Trapezoid", "a", -inf, sym("t1", "p")), ("Trapezoid", "b", sym("t2", "p"), inf), ("Triangle", "c", -inf, sym("t3", "p")),
+                                                              ("Triangle", "d", sym("t4", "p"), sym("t5", "p")), ("Trapezoid", "e", sym("t6", "p"), sym("t7", "p"))]}],
+        blocks=[{"name": "rb", "conjunction": "Minimum", "disjunction": "Maximum", "implication": "Minimum", "activation": ("General",),
+                 "rules": ["if X is a or X is e then O is a", "if X is not b and X is d then O is b", "if X is c then O is a"]}],
+        valid_range=[("t4", "t5"), ("t6", "t7")], compare_outputs=False)))
     # containers and strings beyond reprlib's default limits (6 list/tuple items, 4 dict entries, 30 characters, 6 levels)
     def make_sizes(sym):
         xs = [sym(f"dx{i}", "p") for i in range(8)]
@@ -225,7 +233,7 @@ def obligations(tier, seed):
     obs = []
     entries = catalog(tier) + extra_catalog()
     all_forms = ("repr", "plain-unformatted", "encapsulated-unformatted", "encapsulated-formatted")
-    rich = {"flags+descriptions+hedges", "rule-weights", "term/Constant+Linear+Function", "term/Discrete", "names/keywords", "special/negative-zero", "special/infinities+nan", "sizes/beyond-reprlib-defaults"}
+    rich = {"flags+descriptions+hedges", "rule-weights", "term/Constant+Linear+Function", "term/Discrete", "names/keywords", "special/negative-zero", "special/infinities+nan", "sizes/beyond-reprlib-defaults", "special/shortcut-constructors"}
     for name, make in entries:
         forms = all_forms if (tier != "quick" or name in rich) else ("repr",)
         obs.append((f"python/{name}", ob_engine(name, make, tier, f"python/{name}", forms=forms)))
